@@ -40,8 +40,20 @@ CONFIG = dict(
              '(temp file removed / truncated, missing directory; its temp files left in place or tidied away), on the same history, a parent-closed prefix of it or another history, then the run of the case under other '
              'hibernation settings in a fresh directory, judged like every other run (twin: a fresh instance without hibernation; for a re-used Pipeline the same two runs without hibernation).  When two successful runs '
              'differ and followed different base plans the harness looks for a run without hibernation on the SAME base plan (obs baseretry).  '
+             'Streams added after the round-4 seeded changes C09-s7 / C09-s8 were missed (harness/cmd/c09/picked.go).  picked (hibernation distance x octopus merge x one change present on several parents): view '
+             'histories whose lines may be inserted independently by several commits (also: a cherry-pick); an octopus of 3..5 arms of 1-2 commits, every arm on a file of its own, and per base file ONE shared change - '
+             'the same lines deleted, the whole file deleted, the very same lines inserted, or the content replaced - made on one arm, on all arms but one (half of the draws), on some or on all arms, so that at the replay '
+             'of the merge commit the file differs on some parents only; merge (may add lines), a tail that edits every file again; x distance 1..3 (a distance <= arms-2 puts a branch to sleep BETWEEN its replay of the '
+             'merge commit and the merge action; driver counter picked_branch_sleeps_between_merge_replay_and_merge) x threshold {0, 1} x memory/disk, with TicksSinceStart.TickSize drawn from {24, 1, 5, 7, 168, 720} hours per '
+             'history (commit times are not multiples of the tick; the baseline uses the same value); histories whose result without hibernation is not the same in 30 runs are not used.  oddir (byte content of a '
+             'configured string): Burndown.HibernationDirectory names an existing, empty, writable directory whose name is one of 53 odd names - trailing / leading blank, tab, LF, CRLF, CR, NBSP, U+3000, U+2028, U+2029, '
+             'U+0085, U+2009, U+202F, a single blank, BOM in front / behind / alone, invalid UTF-8 (\\xff, lone \\xc3, overlong, surrogate) next to a real U+FFFD, NFC / NFD, upper / mixed case, dotless-i, inner blanks, '
+             'trailing dots, leading dashes, backslash, ~, $HOME, %20, %s, quotes, ;, #, &, trailing slash, /., //, nested, sub/../plain, 200 characters; every second case creates next to it the directories that a '
+             'normalisation of the name would lead to (TrimSpace, Trim of BOM, ToLower / ToUpper, ToValidUTF8, Fields-join, NFC <-> NFD, ...) and the harness counts the files that ever appear in them or in the parent '
+             '(obs stray: a property failure); every fifth case passes the odd directory as TMPDIR with no directory configured.  No fault is injected: the run is judged like every other run (result of the run without '
+             'hibernation, nothing left).  '
              'Non-trivial = the executed plan contains a Hibernate action; distinct = distinct (history, granularity, sampling, distance, threshold, disk, '
-             'wrapper, fault, options).',
+             'wrapper, fault, options, tick size, directory name).',
         exhaustive_note='',
         assumptions=[
             'C06 (allocator): Boot(Hibernate(a)) = a for a non-empty arena at or above the threshold (Section hypothesis boot_hibernate, discharged by '
@@ -69,7 +81,8 @@ CONFIG = dict(
             'and the tamper item of harness/cmd/c09 (incl. the tampering from the public OnProgress callback right before a multi-branch boot action), '
             'the supervisor / child split of the harness (a crash of the child during a run with hibernation becomes the outcome (panic crash)) and the parametric '
             'generator of the large histories (harness/cmd/c09/scale.go) and of the view histories with deleted / binary files (harness/cmd/c09/wipe.go; the every-length '
-            'truncation picks its victim by the digest of the file bytes from the public OnProgress callback)',
+            'truncation picks its victim by the digest of the file bytes from the public OnProgress callback) and of the octopus histories with shared changes / the odd directory '
+            'names and their normalised twins (harness/cmd/c09/picked.go)',
         ],
         level_text='Coq theorems over every plan that satisfies the lifecycle predicate, every abstract analysis item, every threshold and disk setting, every '
                    'I/O oracle and every remove/truncate adversary: C09_erasure (all I/O succeeds, nobody tampers: the run equals the run of the plan without '
